@@ -64,7 +64,7 @@ def _check_case(ctx, r, indent, eol, add_ws):
         wit.update(got=got[:1500], want=want[:1500])
         ctx.violation(_classify(got, want), "%s(indent=%d, eol=%r) differs from the documented layout" % (how, indent, eol), wit)
         return False
-    if indent == 0 and eol == "\n" and r["k"] == "tag" and ctx.rng.random() < 0.1:
+    if indent == 0 and eol == "\n" and r["k"] == "tag" and ctx.rng.random() < 0.1 and not any(x.get("direct_only") for x in gen.walk(r)):
         # the other string views use the default layout
         s = str(obj)
         ctx.count("oracle.layout")
@@ -195,12 +195,12 @@ def _run(ctx):
         if as_list:
             n = rng.randint(0, 6)
             all_inline = rng.random() < 0.3
-            items = [lg.rand_layout_tree(rng, ids, depth - 1, True, inside_inline=all_inline, text_ws=True,
+            items = [lg.rand_layout_tree(rng, ids, depth - 1, True, inside_inline=all_inline, text_ws=True, direct_only_kinds=True,
                                          max_children=rng.choice([3, 5, 12])) for _ in range(n)]
             r = {"k": "list", "t": "taglist", "c": items}
             add_ws = not (rng.random() < (0.6 if all_inline else 0.25))
         else:
-            r = lg.rand_layout_tree(rng, ids, depth, True, text_ws=True, max_children=rng.choice([3, 5, 12]),
+            r = lg.rand_layout_tree(rng, ids, depth, True, text_ws=True, direct_only_kinds=True, max_children=rng.choice([3, 5, 12]),
                                     root_kind=rng.choice(["block", "block", "inline"]))
             add_ws = True
         indent = rng.choice([0, 0, 1, 2, 3, 5, 9])
